@@ -397,6 +397,23 @@ def gen_case(seed, index, profile=None):
 
     stmts = [gen_statement(ctx) for _ in range(nst)]
 
+    # carry-over shape: an account that a later statement reads is first overdrawn without bound (or emptied),
+    # often with no stored entry at all, so that the only record of the debt is the interpreter's own
+    if ctx.chance("debt_first", 0.1):
+        later = []
+        for st in stmts:
+            if st[1][0] in ('send', 'sendall'):
+                rs = st[1][3] if st[1][0] == 'send' else st[1][2]
+                walk_sources(rs, lambda n, a=st[1][1]: later.append((n[1], a)) if n[0] == 'acct' and n[1] != 'world' else None)
+        if later:
+            acc, asset = rng.choice(later)
+            if rng.random() < 0.6:
+                ctx.balances.pop((acc, asset), None)
+            n = rng.choice([1, 5, 10, 100])
+            ctx.features.add("debt-first")
+            stmts.insert(0, ("send [%s %d] (\n  source = @%s allowing unbounded overdraft\n  destination = @y\n)" % (asset, n, acc),
+                             ('send', asset, n, ('unb', acc), ('acct', 'y'))))
+
     # optional balance()/overdraft()/meta() origins (C10 stream)
     origin_lines = []
     flags = []
